@@ -103,10 +103,10 @@ Qed.
 
 Lemma rethrow_identity : forall d fin p v st,
   exc_of d p = Some (v, st) ->
-  step_js d (mkJS (Some CRethrow) fin) (SPanic p) =
-    (SPanic (PVExc v (stack_of d v)), EvCatch d v :: fin_ev d (mkJS (Some CRethrow) fin)) /\
-  step_js d (mkJS None fin) (SPanic p) = (SPanic (PVExc v st), fin_ev d (mkJS None fin)).
-Proof. intros. unfold step_js. rewrite H. simpl. split; reflexivity. Qed.
+  step_js d (mkJS (Some CRethrow) fin FinQuiet) (SPanic p) =
+    (SPanic (PVExc v (stack_of d v)), EvCatch d v :: fin_ev d (mkJS (Some CRethrow) fin FinQuiet)) /\
+  step_js d (mkJS None fin FinQuiet) (SPanic p) = (SPanic (PVExc v st), fin_ev d (mkJS None fin FinQuiet)).
+Proof. intros. unfold step_js. rewrite H. unfold apply_fin. simpl. destruct fin; split; reflexivity. Qed.
 
 (* ------------------------------------------------------------------------------------------------ *)
 (* 1. identity *)
@@ -163,8 +163,8 @@ Lemma step_js_identity : forall v d j s, transparent (FJS j) = true -> carries v
 Proof.
   intros v d j s Ht Hc.
   destruct (carries_inv _ _ Hc) as [E | [st E]]; subst s;
-    destruct j as [[[]|] fin]; simpl in *; try discriminate; unfold carries; simpl;
-    (split; [reflexivity|]); try (constructor; simpl; auto); apply Forall_fin_ev; simpl; auto.
+    destruct j as [[[]|] [] []]; simpl in *; try discriminate; unfold carries; simpl;
+    (split; [reflexivity|]); repeat constructor; simpl; auto.
 Qed.
 
 Lemma step_identity : forall v d f s, transparent_for v f = true -> carries v s ->
@@ -217,18 +217,34 @@ Qed.
 (* normal completion only runs finally blocks *)
 Definition only_fin (e : event) : Prop := match e with EvFinally _ => True | _ => False end.
 
-Lemma step_normal : forall d f, fst (step d f SNormal) = SNormal /\ Forall only_fin (snd (step d f SNormal)).
+Definition quiet_frame (f : frame) : bool := match f with FJS j => quiet_fin j | FNat _ => true end.
+
+Lemma transparent_quiet : forall v f, transparent_for v f = true -> quiet_frame f = true.
 Proof.
-  intros d [j | [en cb h]]; simpl.
-  - split; auto. apply Forall_fin_ev; simpl; auto.
+  intros v [j|n] H; simpl in *; auto. apply andb_true_iff in H. tauto.
+Qed.
+
+Lemma forallb_quiet : forall v fs, forallb (transparent_for v) fs = true -> forallb quiet_frame fs = true.
+Proof.
+  induction fs as [|f r IH]; simpl; auto. intros H. apply andb_true_iff in H. destruct H as [H1 H2].
+  rewrite (transparent_quiet v f H1). simpl. auto.
+Qed.
+
+Lemma step_normal : forall d f, quiet_frame f = true ->
+  fst (step d f SNormal) = SNormal /\ Forall only_fin (snd (step d f SNormal)).
+Proof.
+  intros d [j | [en cb h]] Hq; simpl in *.
+  - destruct j as [c [] []]; simpl in *; try discriminate; split; auto; repeat constructor; simpl; auto.
   - unfold step_nat; simpl. split; auto.
 Qed.
 
-Lemma unwind_normal : forall fs d, fst (unwind d fs SNormal) = SNormal /\ Forall only_fin (snd (unwind d fs SNormal)).
+Lemma unwind_normal : forall fs d, forallb quiet_frame fs = true ->
+  fst (unwind d fs SNormal) = SNormal /\ Forall only_fin (snd (unwind d fs SNormal)).
 Proof.
-  induction fs as [|f r IH]; intros d; simpl; auto.
-  destruct (IH (S d)) as [H1 H2]. destruct (unwind (S d) r SNormal) as [s ev]; simpl in *; subst s.
-  destruct (step_normal d f) as [H3 H4]. destruct (step d f SNormal) as [s' ev']; simpl in *.
+  induction fs as [|f r IH]; intros d Hq; simpl; auto.
+  simpl in Hq. apply andb_true_iff in Hq. destruct Hq as [Hf Hr].
+  destruct (IH (S d) Hr) as [H1 H2]. destruct (unwind (S d) r SNormal) as [s ev]; simpl in *; subst s.
+  destruct (step_normal d f Hf) as [H3 H4]. destruct (step d f SNormal) as [s' ev']; simpl in *.
   split; auto. apply Forall_app; auto.
 Qed.
 
@@ -266,7 +282,7 @@ Proof.
   intros [entry pre post th] v Hth Hpre Hpost Hcb. simpl in *.
   unfold propagate; simpl.
   destruct post as [post|].
-  - destruct (unwind_normal pre 0) as [N1 N2].
+  - destruct (unwind_normal pre 0 (forallb_quiet v pre Hpre)) as [N1 N2].
     destruct (unwind 0 pre SNormal) as [s1 ev1]; simpl in *; subst s1.
     destruct (runs_jobs entry).
     + pose proof (thrower_carries th (length pre + length post) v Hth) as Hc.
@@ -303,13 +319,13 @@ Proof.
   intros v d f s He Ht Hc. split; [|apply Forall_forall; auto].
   assert (Hso : forall d', stack_of d' v = SCreated) by (intros; unfold stack_of; rewrite He; auto).
   destruct Hc as [-> | ->]; destruct f as [j | [en cb h]]; simpl in *.
-  - destruct j as [[[]|] fin]; simpl in *; try discriminate; rewrite ?Hso; unfold carries_created; auto.
+  - destruct j as [[[]|] [] []]; simpl in *; try discriminate; rewrite ?Hso; unfold carries_created; auto.
   - apply andb_true_iff in Ht. destruct Ht as [Hh Hcb].
     unfold step_nat. simpl n_cb; simpl n_entry; simpl n_h.
     destruct cb; simpl; unfold run_wrapped; simpl; rewrite ?Hso;
       try (apply handle_created; auto); try (unfold carries_created; auto; fail).
     destruct v; simpl in Hcb; try discriminate; apply handle_created; auto.
-  - destruct j as [[[]|] fin]; simpl in *; try discriminate; rewrite ?Hso; unfold carries_created; auto.
+  - destruct j as [[[]|] [] []]; simpl in *; try discriminate; rewrite ?Hso; unfold carries_created; auto.
   - apply andb_true_iff in Ht. destruct Ht as [Hh Hcb].
     unfold step_nat. simpl n_cb; simpl n_entry; simpl n_h.
     destruct cb; simpl; unfold run_wrapped; simpl; rewrite ?Hso;
@@ -408,12 +424,10 @@ Proof.
   destruct f as [j | [en cb h]]; simpl.
   - unfold step_js.
     destruct p as [v|v st|e|x]; simpl in *.
-    + destruct j as [[[]|] fin]; simpl in *; try discriminate; (split; [eexists; split; [reflexivity|simpl; auto]|]).
-      * constructor; simpl; auto. apply Forall_fin_ev; simpl; auto.
-      * apply Forall_fin_ev; simpl; auto.
-    + destruct j as [[[]|] fin]; simpl in *; try discriminate; (split; [eexists; split; [reflexivity|simpl; auto]|]).
-      * constructor; simpl; auto. apply Forall_fin_ev; simpl; auto.
-      * apply Forall_fin_ev; simpl; auto.
+    + destruct j as [[[]|] [] []]; simpl in *; try discriminate;
+        (split; [eexists; split; [reflexivity|simpl; auto] | repeat constructor; simpl; auto]).
+    + destruct j as [[[]|] [] []]; simpl in *; try discriminate;
+        (split; [eexists; split; [reflexivity|simpl; auto] | repeat constructor; simpl; auto]).
     + split; [eexists; split; [reflexivity|simpl; auto]|constructor].
     + discriminate.
   - unfold step_nat. simpl n_cb; simpl n_entry; simpl n_h.
@@ -454,12 +468,12 @@ Proof.
     try (destruct p'; simpl in *; auto).
 Qed.
 
-Lemma goerror_catchable : forall d e act fin,
+Lemma goerror_catchable : forall d e act fin fa,
   uncatchable e = false -> (forall v st, e <> exc_err v st) ->
-  snd (step_js d (mkJS (Some act) fin) (init_signal (S d) (TNatReturnErr e))) =
-    EvCatch d (VGoErr (fresh_goerr (S d)) e) :: fin_ev d (mkJS (Some act) fin).
+  snd (step_js d (mkJS (Some act) fin fa) (init_signal (S d) (TNatReturnErr e))) =
+    EvCatch d (VGoErr (fresh_goerr (S d)) e) :: fin_ev d (mkJS (Some act) fin fa).
 Proof.
-  intros d e act fin Hu Hn. simpl init_signal.
+  intros d e act fin fa Hu Hn. simpl init_signal.
   assert (R : reflect_ret (S d) e = PVValue (VGoErr (fresh_goerr (S d)) e)).
   { unfold reflect_ret. destruct e as [ls b]. destruct ls.
     - destruct b; try (rewrite Hu; reflexivity). exfalso; eapply Hn; reflexivity.
@@ -472,7 +486,7 @@ Qed.
 
 Lemma hard_unc_uncatchable : forall e, hard_unc e = true -> uncatchable e = true.
 Proof.
-  intros [ls b] H. unfold uncatchable, hard_unc in *. cbn [gerr_base gerr_has ebase_has] in *. rewrite H. reflexivity.
+  intros [ls b] H. unfold uncatchable, hard_unc in *. simpl in *. destruct b; simpl in *; auto; discriminate.
 Qed.
 
 Lemma hard_unc_not_exc : forall e, hard_unc e = true -> pv_of_err e = PVErr e.
@@ -589,18 +603,17 @@ Lemma uncatchable_invisible_case : forall c e,
   hard_unc e = true ->
   js_events (fst (propagate c)) =
     match c_post c with None => [] | Some _ => js_events (snd (unwind 0 (c_pre c) SNormal)) end /\
-  catch_obs (fst (propagate c)) = [].
+  catch_obs (fst (propagate c)) =
+    match c_post c with None => [] | Some _ => catch_obs (snd (unwind 0 (c_pre c) SNormal)) end.
 Proof.
   intros [entry pre post th] e Hs He. simpl in *. unfold propagate; simpl.
   destruct post as [post|].
-  - destruct (unwind_normal pre 0) as [N1 N2].
-    destruct (unwind 0 pre SNormal) as [s1 ev1]; simpl in *; subst s1.
-    destruct (runs_jobs entry); simpl.
-    + rewrite Hs. destruct (unc_core post (length pre) e He) as [[e' [E1 [E2 E3]]] U2].
-      destruct (unwind (length pre) post (SPanic (PVErr e))) as [s2 ev2]; simpl in *. subst s2. simpl.
-      destruct (nonjs_js_events _ U2) as [J1 J2].
-      rewrite js_events_app, catch_obs_app, J1, J2, (only_fin_catch _ N2), !app_nil_r. auto.
-    + rewrite (only_fin_catch _ N2). auto.
+  - destruct (unwind 0 pre SNormal) as [s1 ev1]; simpl in *.
+    destruct (runs_jobs entry); simpl; auto.
+    rewrite Hs. destruct (unc_core post (length pre) e He) as [[e' [E1 [E2 E3]]] U2].
+    destruct (unwind (length pre) post (SPanic (PVErr e))) as [s2 ev2]; simpl in *. subst s2. simpl.
+    destruct (nonjs_js_events _ U2) as [J1 J2].
+    rewrite js_events_app, catch_obs_app, J1, J2, !app_nil_r. auto.
   - rewrite Nat.add_0_r in Hs. rewrite Hs.
     destruct (unc_core pre 0 e He) as [_ U2].
     destruct (unwind 0 pre (SPanic (PVErr e))) as [s ev]; simpl in *.
@@ -631,11 +644,11 @@ Qed.
 (* non-vacuity: concrete chains *)
 
 Definition ex_chain : list frame :=
-  [ FJS (mkJS (Some CRethrow) true);
+  [ FJS (mkJS (Some CRethrow) true FinQuiet);
     FNat (mkNat EnReflErr CbCallable HReturnErr);
-    FJS (mkJS None true);
+    FJS (mkJS None true FinQuiet);
     FNat (mkNat EnProxy CbForOf HPanicValue);
-    FJS (mkJS (Some CRethrow) false) ].
+    FJS (mkJS (Some CRethrow) false FinQuiet) ].
 
 Example identity_nonvacuous :
   unwind 0 ex_chain (init_signal 5 (TJsThrow (VObj 2 0))) =
@@ -649,15 +662,15 @@ Proof. reflexivity. Qed.
 Example goerror_nonvacuous :
   let e := GErr [LWrap; LJoin [2%N]] (BSent 1) in
   let c := mkChain CbExportErr
-             [FJS (mkJS (Some CRethrow) false); FNat (mkNat EnReflErr CbExportErr HReturnWrap); FJS (mkJS None true)]
+             [FJS (mkJS (Some CRethrow) false FinQuiet); FNat (mkNat EnReflErr CbExportErr HReturnWrap); FJS (mkJS None true FinQuiet)]
              None (TNatReturnErr e) in
   propagate c =
-  ([EvFinally 2; EvNative 1 e; EvCatch 0 (VGoErr 4 (wrap e))], GErrRes (wrap e)) /\
+  ([EvFinally 2; EvNative 1 e; EvCatch 0 (VGoErr 5 (wrap e))], GErrRes (wrap e)) /\
   host_is 1 (snd (propagate c)) = true /\ host_is 2 (snd (propagate c)) = true /\ host_is 3 (snd (propagate c)) = false.
 Proof. vm_compute. repeat split; reflexivity. Qed.
 
 Example uncatchable_nonvacuous :
-  unwind 0 [FJS (mkJS (Some CSwallow) true); FNat (mkNat EnReflErr CbCallable HReturnWrap); FJS (mkJS (Some CRethrow) true)]
+  unwind 0 [FJS (mkJS (Some CSwallow) true FinQuiet); FNat (mkNat EnReflErr CbCallable HReturnWrap); FJS (mkJS (Some CRethrow) true FinQuiet)]
          (init_signal 3 (TNatInterrupt 1)) =
   (SPanic (PVErr (GErr [LWrap] (BIntr 1))), [EvNative 1 (GErr [] (BIntr 1))]).
 Proof. vm_compute. reflexivity. Qed.
@@ -667,6 +680,13 @@ Example foreign_nonvacuous :
 Proof. vm_compute. reflexivity. Qed.
 
 Example job_nonvacuous :
-  propagate (mkChain CbRunString [FJS (mkJS None true)] (Some [FJS (mkJS None true)]) (TJsThrow (VPrim 3))) =
+  propagate (mkChain CbRunString [FJS (mkJS None true FinQuiet)] (Some [FJS (mkJS None true FinQuiet)]) (TJsThrow (VPrim 3))) =
   ([EvFinally 0; EvFinally 1; EvReject 1 (VPrim 3)], GNormal).
+Proof. vm_compute. reflexivity. Qed.
+
+(* a finally block that throws replaces the pending exception; one that returns cancels it *)
+Example finally_override_nonvacuous :
+  unwind 0 [FJS (mkJS (Some CSwallow) false FinQuiet); FJS (mkJS None true FinThrow); FJS (mkJS None true FinReturn)]
+         (init_signal 3 (TJsThrow (VObj 1 0))) =
+  (SNormal, [EvFinally 2; EvFinally 1; EvCatch 0 (VObj 0 6)]).
 Proof. vm_compute. reflexivity. Qed.
